@@ -58,7 +58,8 @@ pub enum Op {
     ReserveEntities { w: usize, n: usize },
     Obs { w: usize },
     DropWorld { w: usize },
-    Query { w: usize, q: usize, path: String, h: HRef, n: usize },
+    /// `es`: the handle array of the `many_*` paths (`query_many_mut`, `get_many_mut`)
+    Query { w: usize, q: usize, path: String, h: HRef, n: usize, es: Vec<HRef> },
     Cont(crate::containers::COp),
     /// `ChangeTracker<TK>::track` with the given reads: (kind 0 added / 1 changed / 2 removed, partial)
     Track { w: usize, reads: Vec<(u8, bool)> },
@@ -156,7 +157,15 @@ impl Op {
             Op::ReserveEntities { w, n } => format!("reserve_entities W{} n={}", w, n),
             Op::Obs { w } => format!("obs W{}", w),
             Op::DropWorld { w } => format!("drop W{}", w),
-            Op::Query { w, q, path, h, n } => format!("query W{} k={} path={} h={} n={}", w, q, path, h.show(), n),
+            Op::Query { w, q, path, h, n, es } => format!(
+                "query W{} k={} path={} h={} n={} es=[{}]",
+                w,
+                q,
+                path,
+                h.show(),
+                n,
+                es.iter().map(|h| h.show()).collect::<Vec<_>>().join(",")
+            ),
             Op::Cont(c) => c.show(),
             Op::Track { w, reads } => format!("track W{} reads={}", w, show_reads(reads)),
             Op::TObs { w } => format!("tobs W{}", w),
@@ -256,6 +265,7 @@ impl Op {
                 path: f("path").to_string(),
                 h: HRef::parse(f("h")),
                 n: f("n").parse().unwrap(),
+                es: field(&toks, "es").map_or(vec![], |l| split_top(l).iter().map(|s| HRef::parse(s)).collect()),
             },
             v => panic!("harness: unknown verb {}", v),
         }
@@ -998,15 +1008,23 @@ impl Ctx {
                     self.worlds.push(None);
                 }
                 let lhs = format!("de W{} fmt={} H={} tree={}", w, fmt, show_nats(hs), tree.show());
+                // C15: every decoded component is either in the world that comes out or has been dropped
+                if let Some(old) = self.worlds[*w].take() {
+                    drop(old);
+                }
+                let before = live();
                 match crate::serde_engine::deserialize_tree(&tree, fmt, hs) {
                     Ok(world) => {
+                        let stored: i64 =
+                            world.iter().map(|er| entity_ref_comps(&er).iter().filter(|c| c.0 < 10).count() as i64).sum();
+                        let leak = live() - before - stored;
                         self.worlds[*w] = Some(world);
                         if !mutated {
                             self.notes.push(format!("roundtrip W{} W{} H={} => ok", from, w, show_nats(hs)));
                         }
-                        (lhs, "ok".into())
+                        (lhs, format!("ok leak={}", leak))
                     }
-                    Err(_) => (lhs, "err".into()),
+                    Err(_) => (lhs, format!("err leak={}", live() - before)),
                 }
             }
             Op::DeBytes { w, fmt, hs, backend, mutseed } => {
@@ -1122,23 +1140,37 @@ impl Ctx {
                 self.notes = notes;
                 (lhs, res)
             }
-            Op::Query { w, q, path, h, n } => {
+            Op::Query { w, q, path, h, n, es } => {
                 let e = self.resolve(h);
                 let hs = self.probe_handles(*w);
+                let es: Vec<Entity> = es.iter().map(|h| self.resolve(h)).collect();
+                if path.starts_with("many_") && !(2..=6).contains(&es.len()) {
+                    return (format!("query W{} skipped", w), "ok".into());
+                }
                 let mut store = std::mem::take(&mut self.prepared);
                 let world = self.world(*w);
-                let r = crate::query_engine::exec_query(world, *q, path, e, &hs, (*n).max(1) as u32, &mut store);
+                let dup = path.starts_with("many_") && (0..es.len()).any(|i| es[..i].contains(&es[i]));
+                let r = if dup {
+                    // refused before anything is touched: the history goes on
+                    match guarded(|| crate::query_engine::exec_query(world, *q, path, e, &hs, &es, (*n).max(1) as u32, &mut store)) {
+                        Ok(r) => r,
+                        Err(_) => "panic".into(),
+                    }
+                } else {
+                    crate::query_engine::exec_query(world, *q, path, e, &hs, &es, (*n).max(1) as u32, &mut store)
+                };
                 self.prepared = store;
                 (
                     format!(
-                        "query W{} k={} q={} path={} h={} hs={} n={}",
+                        "query W{} k={} q={} path={} h={} hs={} n={} es={}",
                         w,
                         q,
                         crate::query_engine::query_desc(*q),
                         path,
                         show_entity(e),
                         show_entities(&hs),
-                        (*n).max(1)
+                        (*n).max(1),
+                        show_entities(&es)
                     ),
                     r,
                 )
@@ -1791,12 +1823,36 @@ impl Gen {
                 let q = self.rng.below(crate::query_engine::NQUERIES);
                 let path = crate::query_engine::PATHS[self.rng.below(crate::query_engine::PATHS.len())].to_string();
                 let (h, _) = self.pick_handle(ctx, w);
+                let mut es: Vec<HRef> = Vec::new();
+                if path.starts_with("many_") {
+                    // 2..=6 handles, mostly live and distinct; now and then one of them twice (which the
+                    // API must refuse by panicking)
+                    let k = 2 + self.rng.below(5);
+                    for _ in 0..k {
+                        for _ in 0..8 {
+                            let (x, _) = self.pick_handle(ctx, w);
+                            if !es.iter().any(|y| y.show() == x.show()) {
+                                es.push(x);
+                                break;
+                            }
+                        }
+                    }
+                    while es.len() < k {
+                        es.push(HRef::Lit(100 + es.len() as u32, 1));
+                    }
+                    if self.rng.chance(12) {
+                        let (i, j) = (self.rng.below(k), self.rng.below(k));
+                        if i != j {
+                            es[i] = es[j].clone();
+                        }
+                    }
+                }
                 let mut n = *self.rng.pick(&[1usize, 2, 3, 7, 64]).unwrap();
                 if path.ends_with("batched") && self.rng.chance(25) {
                     // "any batch size >= 1": the far end of u32 too
                     n = *self.rng.pick(&[u32::MAX as usize, u32::MAX as usize - 1, u32::MAX as usize - 2, 1usize << 31, (1usize << 31) + 1]).unwrap();
                 }
-                Op::Query { w, q, path, h, n }
+                Op::Query { w, q, path, h, n, es }
             }
         }
     }
@@ -2012,6 +2068,11 @@ impl Op {
             Op::SpawnCb { decl, .. } | Op::SpawnCbAt { decl, .. } => {
                 out.push_str(&format!(" ts={}", show_nats(&canon_types(decl))))
             }
+            Op::Query { w, q, .. } => out.push_str(&format!(
+                " q={} hs={}",
+                crate::query_engine::query_desc(*q),
+                show_entities(&ctx.probe_handles(*w))
+            )),
             _ => {}
         }
         out
